@@ -143,6 +143,12 @@ def body_current_url(I, X, n=2, with_query=True):
     X.assume(pall_in(p, [(0x20, 0x7E)]))
     X.assume(pnone_in(p, [0x2F]))
     path = pconcat("/", p)
+    # known finding: a literal '%XX' in the (already decoded) path is taken for an escape
+    HEX = [(0x30, 0x39), (0x41, 0x46), (0x61, 0x66)]
+    lit = False
+    for i in range(n - 2):
+        lit = por(lit, pand(pall_in(p[i:i + 1], [0x25]), pall_in(p[i + 1:i + 3], HEX)))
+    X.known("C15-current-url-literal-percent-escape", lit)
     qs = b"k=v" if with_query else b""
     url = I.call(get_current_url, ("http", "h", "/r", path, qs))
     parts = I.call(urllib.parse.urlsplit, (url,))
